@@ -12,8 +12,9 @@ import zoo
 from props.c01 import mutate, fresh_keys
 
 PROPERTY = "C02"
-LEAN_MODULE = "PyOak.Props.C05"
-THEOREMS = ["PyOak.C05.dfs_top_down"]
+LEAN_MODULE = "PyOak.Props.C02"
+THEOREMS = ["PyOak.C02." + t for t in ["eq_total", "eq_iff", "eq_refl", "eq_symm", "eq_trans", "ne_eq_not",
+                                       "eq_other_class", "aligned", "keys_agree"]]
 RULE = ("pairs/triples of zoo trees: copies whose origin differs at exactly one position (root, child, grandchild, "
         "deeper; inside tuples and single fields; no-origin, code, generated and multi origins), content mutants, "
         "content-equal twins; non-trivial = tree >= 3 nodes; distinct by both descriptions")
